@@ -85,6 +85,46 @@ func work(id int, shared *sharedT, rounds int) string {
 		}
 		ok, _ := bv.Verify(zr{})
 		fmt.Fprintf(&out, "%v ", ok)
+		// error paths: malformed inputs and invalid options must be as thread-safe as the happy path
+		// (pooled or cached scratch state released twice on an error path only shows up afterwards)
+		{
+			ebv := ed25519.NewBatchVerifier()
+			ebv.AddWithOptions(pk, msg[:5], sig, &ed25519.Options{Hash: crypto.SHA512})                // ph with a non-64-byte message
+			ebv.AddWithOptions(pk, msg, sig, &ed25519.Options{Context: string(make([]byte, 300))})    // context too long
+			ebv.AddWithOptions(pk, msg, sig[:63], &ed25519.Options{})                                   // short signature
+			ebv.AddWithOptions(pk[:31], msg, sig, &ed25519.Options{})                                   // short key
+			ebv.AddWithOptions(pk, msg, sig, &ed25519.Options{Verify: &ed25519.VerifyOptions{AllowNonCanonicalR: true, CofactorlessVerify: true}})
+			ebv.AddExpandedWithOptions(nil, msg, sig, &ed25519.Options{})
+			ebv.Add(pk, msg, sig)
+			eall, eeach := ebv.Verify(zr{})
+			fmt.Fprintf(&out, "%v%v ", eall, eeach)
+			bad := append([]byte{}, sig...)
+			bad[40] ^= 4
+			fmt.Fprintf(&out, "%v%v ", ed25519.Verify(pk, msg, bad), shared.v.Verify(pk, msg, bad))
+			func() {
+				defer func() { _ = recover() }()
+				ed25519.VerifyWithOptions(pk, msg[:5], sig, &ed25519.Options{Hash: crypto.SHA512}) // documented panic
+			}()
+			_, e1 := shared.sk.Sign(nil, msg, &ed25519.Options{Hash: crypto.SHA512})
+			_, e2 := shared.sk.Sign(nil, msg, &ed25519.Options{Context: string(make([]byte, 300))})
+			_, e3 := x25519.X25519(seed, make([]byte, 32)) // low order point
+			_, e4 := x25519.X25519(seed[:31], x25519.Basepoint)
+			okp, _ := ecvrf.Verify(pk, make([]byte, 80), msg)
+			okq, _ := ecvrf.Verify(pk, make([]byte, 79), msg)
+			_, e5 := sr25519.NewSignatureFromBytes(make([]byte, 64))
+			_, e6 := sr25519.NewPublicKeyFromBytes(bytes.Repeat([]byte{0xff}, 32))
+			e7 := h2c.ExpandMessageXMD(make([]byte, 70000), crypto.SHA512, []byte("d"), msg)
+			var ep curve.EdwardsPoint
+			e8 := ep.UnmarshalBinary(bytes.Repeat([]byte{2}, 32))
+			_, e9 := scalar.NewFromCanonicalBytes(bytes.Repeat([]byte{0xff}, 32))
+			fmt.Fprintf(&out, "%v%v%v%v%v%v%v%v%v%v%v ", e1 != nil, e2 != nil, e3 != nil, e4 != nil, okp, okq, e5 != nil, e6 != nil, e7 != nil, e8 != nil, e9 != nil)
+			// after the failures, the happy path again
+			ebv2 := ed25519.NewBatchVerifier()
+			for j := 0; j < 3; j++ {
+				ebv2.Add(pk, msg, sig)
+			}
+			fmt.Fprintf(&out, "%v ", ebv2.VerifyBatchOnly(zr{}))
+		}
 		// direct LRU traffic on the shared cache (thread bodies of the interleaving harness)
 		for j := 0; j < 4; j++ {
 			k := (id + j + it) % 4
@@ -194,10 +234,135 @@ func globalDigest() string {
 	return fmt.Sprintf("%x", h.Sum(nil))
 }
 
+// coldStart makes the FIRST use of every API family in this process concurrent: all goroutines meet at a
+// barrier and then enter the same family together, before anything has been called sequentially (a lazily
+// initialised package-level table or cache is only racy the first time).  Returns one result string per goroutine.
+func coldStart(n int) []string {
+	res := make([]string, n)
+	outs := make([]bytes.Buffer, n)
+	msg := []byte("cold")
+	type st struct {
+		sk   ed25519.PrivateKey
+		pk   ed25519.PublicKey
+		sig  []byte
+		pi   []byte
+		kp   *sr25519.KeyPair
+		ssig *sr25519.Signature
+	}
+	sts := make([]st, n)
+	steps := []func(id int){
+		func(id int) { sts[id].sk = ed25519.NewKeyFromSeed(bytes.Repeat([]byte{7}, 32)); sts[id].pk = sts[id].sk.Public().(ed25519.PublicKey) },
+		func(id int) { sts[id].sig = ed25519.Sign(sts[id].sk, msg); fmt.Fprintf(&outs[id], "%x ", sts[id].sig[:6]) },
+		func(id int) { fmt.Fprintf(&outs[id], "%v ", ed25519.Verify(sts[id].pk, msg, sts[id].sig)) },
+		func(id int) {
+			fmt.Fprintf(&outs[id], "%v ", ed25519.VerifyWithOptions(sts[id].pk, msg, sts[id].sig, &ed25519.Options{Verify: ed25519.VerifyOptionsStdLib}))
+		},
+		func(id int) {
+			e, _ := ed25519.NewExpandedPublicKey(sts[id].pk)
+			fmt.Fprintf(&outs[id], "%v ", ed25519.VerifyExpanded(e, msg, sts[id].sig))
+		},
+		func(id int) {
+			bv := ed25519.NewBatchVerifier()
+			for j := 0; j < 100; j++ {
+				bv.Add(sts[id].pk, msg, sts[id].sig)
+			}
+			ok, _ := bv.Verify(zr{})
+			fmt.Fprintf(&outs[id], "%v ", ok)
+		},
+		func(id int) {
+			x, _ := x25519.X25519(bytes.Repeat([]byte{9}, 32), x25519.Basepoint)
+			y, _ := x25519.X25519(bytes.Repeat([]byte{9}, 32), x)
+			fmt.Fprintf(&outs[id], "%x ", y[:6])
+		},
+		func(id int) { sts[id].pi = ecvrf.Prove(sts[id].sk, msg); fmt.Fprintf(&outs[id], "%x ", sts[id].pi[:6]) },
+		func(id int) { ok, b := ecvrf.Verify(sts[id].pk, sts[id].pi, msg); fmt.Fprintf(&outs[id], "%v%x ", ok, b[:4]) },
+		func(id int) {
+			var msk sr25519.MiniSecretKey
+			sts[id].kp = msk.ExpandUniform().KeyPair()
+			sts[id].ssig, _ = sts[id].kp.Sign(zr{}, sr25519.NewSigningContext([]byte("c")).NewTranscriptBytes(msg))
+			b, _ := sts[id].ssig.MarshalBinary()
+			fmt.Fprintf(&outs[id], "%x ", b[:6])
+		},
+		func(id int) {
+			fmt.Fprintf(&outs[id], "%v ", sts[id].kp.PublicKey().Verify(sr25519.NewSigningContext([]byte("c")).NewTranscriptBytes(msg), sts[id].ssig))
+		},
+		func(id int) {
+			p, _ := h2c.Edwards25519_XMD_SHA512_ELL2_RO([]byte("d"), msg)
+			b, _ := p.MarshalBinary()
+			r, _ := h2c.Ristretto255_XMD_R255MAP_RO(crypto.SHA512, []byte("d"), msg)
+			rb, _ := r.MarshalBinary()
+			fmt.Fprintf(&outs[id], "%x%x ", b[:4], rb[:4])
+		},
+		func(id int) {
+			s, _ := scalar.NewFromBits(bytes.Repeat([]byte{0x5a}, 32))
+			var p curve.EdwardsPoint
+			p.Mul(curve.ED25519_BASEPOINT_POINT, s)
+			p.MultiscalarMulVartime([]*scalar.Scalar{s, s}, []*curve.EdwardsPoint{&p, curve.ED25519_BASEPOINT_POINT})
+			p.MultiscalarMul([]*scalar.Scalar{s}, []*curve.EdwardsPoint{&p})
+			ss := make([]*scalar.Scalar, 200)
+			ps := make([]*curve.EdwardsPoint, 200)
+			for j := range ss {
+				ss[j], ps[j] = s, curve.ED25519_BASEPOINT_POINT
+			}
+			p.MultiscalarMulVartime(ss, ps)
+			b, _ := p.MarshalBinary()
+			var r curve.RistrettoPoint
+			r.MulBasepoint(curve.RISTRETTO_BASEPOINT_TABLE, s)
+			rb, _ := r.MarshalBinary()
+			fmt.Fprintf(&outs[id], "%x%x ", b[:4], rb[:4])
+		},
+		func(id int) {
+			t := merlin.NewTranscript("cold")
+			t.AppendMessage("m", msg)
+			o := make([]byte, 8)
+			t.ExtractBytes(o, "c")
+			fmt.Fprintf(&outs[id], "%x ", o)
+		},
+		func(id int) {
+			v := cache.NewVerifier(cache.NewLRUCache(1))
+			fmt.Fprintf(&outs[id], "%v ", v.Verify(sts[id].pk, msg, sts[id].sig))
+		},
+	}
+	for _, step := range steps {
+		var ready, done sync.WaitGroup
+		start := make(chan struct{})
+		ready.Add(n)
+		done.Add(n)
+		for id := 0; id < n; id++ {
+			go func(id int) {
+				defer done.Done()
+				ready.Done()
+				<-start
+				step(id)
+			}(id)
+		}
+		ready.Wait()
+		close(start)
+		done.Wait()
+	}
+	for i := range res {
+		res[i] = outs[i].String()
+	}
+	return res
+}
+
 func main() {
 	n := flag.Int("goroutines", 8, "")
 	rounds := flag.Int("rounds", 12, "")
 	flag.Parse()
+	cold := coldStart(*n)
+	coldBad := 0
+	for i := range cold {
+		if cold[i] != cold[0] {
+			fmt.Println("RESULT-MISMATCH cold-start goroutine", i)
+			coldBad++
+		}
+	}
+	// the same steps again, now sequentially warm: results must not depend on who initialised what
+	if again := coldStart(1); again[0] != cold[0] {
+		fmt.Println("RESULT-MISMATCH cold-start results differ from the warm re-run")
+		coldBad++
+	}
 	sh := &sharedT{}
 	sh.lru = cache.NewLRUCache(2)
 	sh.v = cache.NewVerifier(cache.NewLRUCache(2))
@@ -237,7 +402,7 @@ func main() {
 		go func(i int) { defer wg.Done(); res[i] = work(i, sh, *rounds) }(i)
 	}
 	wg.Wait()
-	bad := 0
+	bad := coldBad
 	seq0 := work(0, sh, *rounds)
 	if seq0 != seq {
 		fmt.Println("RESULT-MISMATCH sequential rerun differs")
